@@ -1,5 +1,6 @@
 import Cfdm.Driver.Parse
 import Cfdm.Model.Describe
+import Cfdm.Driver.C19Emit
 /-
 Driver for C19.
 
@@ -228,6 +229,9 @@ def run (sub : String) (kv : KV) : String :=
   match sub with
   | "desc" => runDesc kv
   | "cmds" => runCmds kv
+  | "emit" => C19Emit.runEmit kv
+  | "dstr" => C19Emit.runDstr kv
+  | "cstr" => C19Emit.runCstr kv
   | _ => "bad-op"
 
 end Cfdm.Driver.C19
